@@ -157,7 +157,10 @@ def del_case(case):
             return list(l) if case.get("style") == "id" else [dl.get_by_id(e) for e in l]
         ref_sol, used = None, {}
         if method == "linear moma" and case.get("ref") == "given":
-            ref_sol = gennet.to_cobra(net, case.get("solver", "glpk")).optimize()
+            try:
+                ref_sol = gennet.to_cobra(net, case.get("solver", "glpk")).optimize()
+            except Exception as e:  # noqa  (unbounded wild type: Model.optimize raises, no reference exists)
+                return None, {"skipped": True, "stats": {"kind": "del", "skipped": "no reference: " + type(e).__name__}}
             if ref_sol.status != "optimal":
                 return None, {"skipped": True, "stats": {"kind": "del", "skipped": "no reference: " + ref_sol.status}}
         orig_pfba = moma_mod.pfba
